@@ -78,13 +78,16 @@ def make_case(tier, seed, index):
             hist = []
             for j in range(5):
                 hist.append(["ok", "fail", "fail_err"][x % 3])
+            if bits % 5 == 0:
+                hist = [("fail_garbage" if h == "fail" else h) for h in hist]
                 x //= 3
         return {"kind": "count", "family": fam, "transport": tr, "history": hist, "keep_alive": bool(bits & 1) ^ (fam == "DT"),
                 "timeout": 0.5, "retries": 1}
     i -= n_count_sweep()
     if i < N_COUNT_RANDOM[tier]:
         fam, tr = rnd.choice(COUNT_CFG)
-        hist = [rnd.choice(["ok", "fail", "fail_err", "fail_err", "reject"] if fam != "ES" else ["ok", "fail", "fail_err"])
+        hist = [rnd.choice(["ok", "fail", "fail_err", "fail_err", "reject", "fail_garbage"] if fam != "ES" else
+                           ["ok", "fail", "fail_err", "fail_garbage"])
                 for _ in range(rnd.randint(1, 8))]
         return {"kind": "count", "family": fam, "transport": tr, "history": hist, "keep_alive": rnd.random() < 0.5,
                 "timeout": rnd.choice([0.25, 1.0]), "retries": rnd.choice([0, 1, 2])}
@@ -127,7 +130,7 @@ def make_case(tier, seed, index):
         return {"kind": "api", "entry": entry, "family": fam, "transport": tr, "timeout": tau, "retries": r, "keep_alive": ka,
                 "calls": calls, "idle": idle, "faults": faults, "connects": connects}
     # identification data
-    which = rnd.choice(["discover", "connect:ET", "connect:DT", "connect:ES", "discover:modbus"])
+    which = rnd.choice(["discover", "connect:ET", "connect:DT", "connect:ES", "discover:modbus", "search"])
     style = rnd.choice(["random", "highbit", "nul", "utf16", "ascii"])
     n = 80
     if style == "random":
@@ -178,6 +181,7 @@ def _device(fam):
             dev.set_bytes(a, bytes.fromhex("300030000000006400640000"))
         dev.set_bytes(45200, bytes([23, 5, 17, 10, 11, 12]))
         dev.set_bytes(35100, bytes([23, 5, 17, 10, 11, 12]))
+        dev.set_reg(47000, 3)   # work mode ECO: get_operation_mode() goes on to read eco mode group 1
         return dev
     if fam == "DT":
         dev = devices.make_dt(fill="zero", comm_addr=None)
@@ -294,6 +298,9 @@ def run_count(case):
                 world.net.begin_script([], {"k": "ok"})
             elif h == "fail":
                 world.net.begin_script([], {"k": "drop"})
+            elif h == "fail_garbage":
+                # nothing but garbage comes back: no valid answer was obtained (a failure, not a refusal)
+                world.net.begin_script([], {"k": "garbage", "n": 12, "seed": len(recs) + 1})
             elif h == "fail_err":
                 # an OS-level socket error ends the request (UDP: reported through error_received; TCP: every
                 # connect attempt is refused)
@@ -319,11 +326,13 @@ def run_count(case):
             if rec["outcome"] != "result":
                 violations.append(viol(f"C09:count:{fam}:{tr}:ok-failed", f"request {j} (answered) ended {rec['outcome']}"))
             streak = 0
-        elif h in ("fail", "fail_err"):
+        elif h in ("fail", "fail_err", "fail_garbage"):
             streak += 1
             if rec["outcome"] != "failed":
-                violations.append(viol(f"C09:count:{fam}:{tr}:not-failed",
-                                       f"request {j} (silent peer) ended {rec['outcome']}, expected RequestFailedException"))
+                why = {"fail": "silent peer", "fail_err": "socket error", "fail_garbage": "only garbage received"}[h]
+                violations.append(viol(f"C09:count:{fam}:{tr}:not-failed:{h}",
+                                       f"request {j} ({why}) ended {rec['outcome']} {rec.get('exc')!r}, expected "
+                                       f"RequestFailedException"))
             else:
                 got = getattr(rec["exc"], "consecutive_failures_count", None)
                 if got != streak:
@@ -341,9 +350,34 @@ def run_count(case):
                      {"count_histories": 1})
 
 
+def run_search(case):
+    """search_inverters() on a silent network / with garbage: no valid answer -> RequestFailedException."""
+    goodwe, gp, ge = C.goodwe_mods()
+    world = World(max_steps=100_000)
+    world.net.begin_script([], {"k": "drop"})
+    state = {}
+
+    async def main():
+        state["rec"] = await C.do_call(world, "search", goodwe.search_inverters)
+
+    status, _ = C.run_world(world, main())
+    violations = []
+    rec = state.get("rec")
+    if status != "ok" or rec is None:
+        violations.append(viol("C09:hang:search", f"did not terminate: {status}"))
+    elif rec["outcome"] != "failed":
+        violations.append(viol(f"C09:classification:search_inverters:{rec['outcome']}",
+                               f"search_inverters() on a silent network ended with {rec.get('exc')!r}; no valid answer "
+                               f"was obtained, so RequestFailedException is expected"))
+    callback_violations(violations, world, "udp")
+    return C.package(world, case, violations, ("search", rec["outcome"] if rec else status), True, {"search_runs": 1})
+
+
 def run_ident(case):
     goodwe, gp, ge = C.goodwe_mods()
     which = case["which"]
+    if which == "search":
+        return run_search(case)
     blob = bytearray(bytes.fromhex(case["blob"]))
     if case["tag"]:
         pos = 31 + case["tag_pos"] if which.startswith("discover") or which == "connect:ES" else 6 + case["tag_pos"]
